@@ -13,7 +13,10 @@
 mod c01;
 mod c02;
 mod c05;
+mod c06;
 mod c07;
+mod c17;
+mod c18;
 mod c19;
 mod c24;
 mod util;
@@ -37,7 +40,8 @@ fn main() {
             let res = search(twin, case.as_deref(), seed);
             let out = match res {
                 Some(mut v) => {
-                    v["found"] = json!(true);
+                    // `known_only`: nothing but hits of a class recorded in known_findings.txt (the check prints them)
+                    v["found"] = json!(v.get("known_only").is_none());
                     v["twin"] = json!(twin);
                     v
                 }
@@ -78,12 +82,18 @@ fn search(twin: &str, case: Option<&str>, seed: u64) -> Option<Value> {
         c02::search(twin, case, seed)
     } else if twin.starts_with("c05.") {
         c05::search(twin, case, seed)
+    } else if twin.starts_with("c06.") {
+        c06::search(twin, case, seed)
     } else if twin.starts_with("c07.") {
         c07::search(twin, case, seed)
+    } else if twin.starts_with("c18.") {
+        c18::search(twin, case, seed)
     } else if twin.starts_with("c19.") {
         c19::search(twin, case, seed)
     } else if twin.starts_with("c24.") {
         c24::search(twin, case, seed)
+    } else if twin.starts_with("c17.") {
+        c17::search(twin, case, seed)
     } else {
         None
     }
@@ -96,12 +106,18 @@ fn replay(twin: &str, input: &Value) -> Value {
         c02::replay(twin, input)
     } else if twin.starts_with("c05.") {
         c05::replay(twin, input)
+    } else if twin.starts_with("c06.") {
+        c06::replay(twin, input)
     } else if twin.starts_with("c07.") {
         c07::replay(twin, input)
+    } else if twin.starts_with("c18.") {
+        c18::replay(twin, input)
     } else if twin.starts_with("c19.") {
         c19::replay(twin, input)
     } else if twin.starts_with("c24.") {
         c24::replay(twin, input)
+    } else if twin.starts_with("c17.") {
+        c17::replay(twin, input)
     } else {
         json!({"agrees": true, "note": "unknown twin"})
     }
@@ -114,12 +130,18 @@ fn sweep(twin: &str, seed: u64) -> Value {
         c02::sweep(twin, seed)
     } else if twin.starts_with("c05.") {
         c05::sweep(twin, seed)
+    } else if twin.starts_with("c06.") {
+        c06::sweep(twin, seed)
     } else if twin.starts_with("c07.") {
         c07::sweep(twin, seed)
+    } else if twin.starts_with("c18.") {
+        c18::sweep(twin, seed)
     } else if twin.starts_with("c19.") {
         c19::sweep(twin, seed)
     } else if twin.starts_with("c24.") {
         c24::sweep(twin, seed)
+    } else if twin.starts_with("c17.") {
+        c17::sweep(twin, seed)
     } else {
         json!({"evaluations": 0, "disagreements": 0})
     }
